@@ -33,6 +33,17 @@ pub struct InfixOpConfig(
     pub Arc<InfixOpFunc>,
 );
 
+// division or remainder by zero, a result outside the decimal range, or a shift
+// count outside 0..=63
+fn arithmetic_error(op: &str) -> Error {
+    Error::ArithmeticFault(op.to_string())
+}
+
+// checked_shl / checked_shr reject every count above 63; map a negative one there too
+fn shift_count(count: i64) -> u32 {
+    u32::try_from(count).unwrap_or(u32::MAX)
+}
+
 pub struct InfixOpManager {
     store: &'static Mutex<HashMap<String, InfixOpConfig>>,
 }
@@ -64,16 +75,16 @@ impl InfixOpManager {
                 SETTER,
                 RIGHT,
                 Arc::new(move |left, right| {
-                    let (mut a, b) = (left.decimal()?, right.decimal()?);
-                    match op {
-                        "+=" => a += b,
-                        "-=" => a -= b,
-                        "*=" => a *= b,
-                        "/=" => a /= b,
-                        "%=" => a %= b,
-                        _ => (),
-                    }
-                    Ok(Value::Number(a))
+                    let (a, b) = (left.decimal()?, right.decimal()?);
+                    let ans = match op {
+                        "+=" => a.checked_add(b),
+                        "-=" => a.checked_sub(b),
+                        "*=" => a.checked_mul(b),
+                        "/=" => a.checked_div(b),
+                        "%=" => a.checked_rem(b),
+                        _ => Some(a),
+                    };
+                    ans.map_or(Err(arithmetic_error(op)), |num| Ok(Value::Number(num)))
                 }),
             );
         }
@@ -87,8 +98,8 @@ impl InfixOpManager {
                 Arc::new(move |left, right| {
                     let (mut a, b) = (left.integer()?, right.integer()?);
                     match op {
-                        "<<=" => a <<= b,
-                        ">>=" => a >>= b,
+                        "<<=" => a = a.checked_shl(shift_count(b)).ok_or(arithmetic_error(op))?,
+                        ">>=" => a = a.checked_shr(shift_count(b)).ok_or(arithmetic_error(op))?,
                         "&=" => a &= b,
                         "^=" => a ^= b,
                         "|=" => a |= b,
@@ -168,8 +179,8 @@ impl InfixOpManager {
                         "|" => a |= b,
                         "^" => a ^= b,
                         "&" => a &= b,
-                        "<<" => a <<= b,
-                        ">>" => a >>= b,
+                        "<<" => a = a.checked_shl(shift_count(b)).ok_or(arithmetic_error(op))?,
+                        ">>" => a = a.checked_shr(shift_count(b)).ok_or(arithmetic_error(op))?,
                         _ => (),
                     }
                     Ok(Value::from(a))
@@ -184,16 +195,16 @@ impl InfixOpManager {
                 CALC,
                 LEFT,
                 Arc::new(move |left, right| {
-                    let (mut a, b) = (left.decimal()?, right.decimal()?);
-                    match op {
-                        "+" => a += b,
-                        "-" => a -= b,
-                        "*" => a *= b,
-                        "/" => a /= b,
-                        "%" => a %= b,
-                        _ => (),
-                    }
-                    Ok(Value::from(a))
+                    let (a, b) = (left.decimal()?, right.decimal()?);
+                    let ans = match op {
+                        "+" => a.checked_add(b),
+                        "-" => a.checked_sub(b),
+                        "*" => a.checked_mul(b),
+                        "/" => a.checked_div(b),
+                        "%" => a.checked_rem(b),
+                        _ => Some(a),
+                    };
+                    ans.map_or(Err(arithmetic_error(op)), |num| Ok(Value::from(num)))
                 }),
             );
         }
@@ -426,10 +437,10 @@ impl PostfixOpManager {
             "++",
             Arc::new(|param| {
                 let a = match param {
-                    Value::Number(a) => a + Decimal::from_i32(1).unwrap(),
+                    Value::Number(a) => a.checked_add(Decimal::from_i32(1).unwrap()),
                     _ => return Err(Error::ShouldBeNumber()),
                 };
-                Ok(Value::Number(a))
+                a.map_or(Err(arithmetic_error("++")), |num| Ok(Value::Number(num)))
             }),
         );
 
@@ -437,10 +448,10 @@ impl PostfixOpManager {
             "--",
             Arc::new(|param| {
                 let a = match param {
-                    Value::Number(a) => a - Decimal::from_i32(1).unwrap(),
+                    Value::Number(a) => a.checked_sub(Decimal::from_i32(1).unwrap()),
                     _ => return Err(Error::ShouldBeNumber()),
                 };
-                Ok(Value::Number(a))
+                a.map_or(Err(arithmetic_error("--")), |num| Ok(Value::Number(num)))
             }),
         );
     }
